@@ -724,7 +724,70 @@ fn replace_credential(c: &mut Case, old: &str, new: &str) {
     c.uri = c.uri.replace(&enc_old, &enc_new);
 }
 
+/// The scope rule on its own (unstable API): authenticators with arbitrary credential strings and
+/// instants through `prevalidate` + `get_string_to_sign`, crate vs model vs the rule as the property states it.
+fn c03_prevalidate_sweep(ctx: &mut Ctx) {
+    let mut rng = ctx.rng.fork();
+    let n = ctx.n(6000, 200_000);
+    let region = "us-east-1";
+    let service = "iam";
+    let mut lines = Vec::new();
+    let mut imps = Vec::new();
+    let mut specs = Vec::new();
+    let parts_pool = ["AKID", "", "20150830", "20150831", "20150829", "2015083", "us-east-1", "us-east-1 ", "US-EAST-1", "us-east-", "iam", "IAM", "ia", "iamx", "aws4_request", "aws4_request ", "AWS4_REQUEST", "aws4", "x", "é", "20150830T", " 20150830"];
+    for _ in 0..n {
+        let np = rng.below(9);
+        let mut parts: Vec<&str> = (0..np).map(|_| *rng.pick(&parts_pool)).collect();
+        if rng.chance(1, 2) && np >= 5 {
+            // mostly right, one or two slots perturbed
+            parts = vec!["AKID", "20150830", region, service, "aws4_request"];
+            for _ in 0..rng.below(3) {
+                let i = rng.below(5);
+                parts[i] = *rng.pick(&parts_pool);
+            }
+            if rng.chance(1, 6) {
+                parts.push(*rng.pick(&parts_pool));
+            }
+        }
+        let cred = parts.join("/");
+        // instants around the day boundaries of 2015-08-30 (UTC), server within or outside the window
+        let t_secs = 1_440_892_800 + *rng.pick(&[0i64, 1, 43_200, 86_399, 86_400, -1]);
+        let now_secs = t_secs + *rng.pick(&[0i64, 1, -1, 899, 900, 901, -900, -901, 5000]);
+        let imp_out = match imp::preval(&cred, (t_secs, 0), (now_secs, 0), region, service) { Some(x) => x, None => continue };
+        // the rule as stated
+        let (_, date) = rs::ref_compact(t_secs as i128 * 1_000_000_000);
+        let ps: Vec<&str> = cred.split('/').collect();
+        let spec = if (now_secs - t_secs).abs() > 900 {
+            "ERR SignatureDoesNotMatch".to_string()
+        } else if ps.len() != 5 {
+            "ERR IncompleteSignature".to_string()
+        } else if ps[1] == date && ps[2] == region && ps[3] == service && ps[4] == "aws4_request" {
+            "OK".to_string()
+        } else {
+            "ERR SignatureDoesNotMatch".to_string()
+        };
+        lines.push(format!("PREVAL {} {} {} {} {}", hx(cred.as_bytes()), t_secs as i128 * 1_000_000_000, now_secs as i128 * 1_000_000_000, hx(region.as_bytes()), hx(service.as_bytes())));
+        imps.push(imp_out);
+        specs.push(spec);
+    }
+    let models = ctx.drv.ask_all(&lines);
+    for (((line, im), mo), sp) in lines.iter().zip(imps.iter()).zip(models.iter()).zip(specs.iter()) {
+        ctx.rep.count("evaluations");
+        ctx.rep.count("evaluations.PREVAL");
+        ctx.rep.count("traces_validated_against_impl");
+        ctx.rep.distinct(&format!("{}|{}", line, im));
+        if !imp::same_outcome(im, mo) {
+            ctx.rep.fail(Failure { kind: "CORR", op: "PREVAL".into(), class: "c03-prevalidate".into(), input: line.clone(), imp: im.clone(), model: mo.clone(), spec: sp.clone(), clause: "implementation and model disagree on prevalidate / string-to-sign".into() });
+        }
+        let im_class = if im.starts_with("OK") { "OK".to_string() } else { im.clone() };
+        if &im_class != sp {
+            ctx.rep.fail(Failure { kind: "ORACLE", op: "PREVAL".into(), class: "c03-prevalidate".into(), input: line.clone(), imp: im.clone(), model: mo.clone(), spec: sp.clone(), clause: "C03/C04: the freshness + credential-scope verdict differs from the rule as stated (window, then five parts, then region/service/terminator/UTC date)".into() });
+        }
+    }
+}
+
 pub fn c03(ctx: &mut Ctx) {
+    c03_prevalidate_sweep(ctx);
     let mut rng = ctx.rng.fork();
     let mut jobs = Vec::new();
     let n = ctx.n(150, 3000);
